@@ -211,6 +211,12 @@ func TestC15Sweep(t *testing.T) {
 		}
 		cases = append(cases, c15Case{Kind: "entry", Test: 0, Seq: q})
 	}
+	// every test with its default parameter on a sample just above 2^20 bits whose byte count is odd (131073 bytes), after and before smaller ones
+	for _, nb := range []int{131073, 1250, 131073} {
+		for _, td := range tests {
+			cases = append(cases, c15Case{Kind: "entry", Test: td.Idx, Param: td.Default, Seq: gen.Seq{Family: "uniform", N: nb * 8, Seed: uint64(900 + td.Idx)}})
+		}
+	}
 	cases = append(cases, c15Case{Kind: "round", Seq: gen.Seq{Family: "uniform", N: 1000000, Seed: 77}})
 	cases = append(cases, c15Case{Kind: "round", Seq: gen.Seq{Family: "uniform", N: 20000, Seed: 78}})
 	for i, n := range []int{8, 1000000, 1000008, 2000000, 10000000} {
